@@ -1,32 +1,105 @@
-import os, subprocess
+import os, subprocess, json
 META = dict(
-    engine='rt',
+    engine='rt+cosched',
     technique='two-stream held-task exploration: every task A of every bounded DTD program is kept inside its body on stream 1 while a harness-owned scheduler '
               'lets stream 0 insert and run everything the real runtime considers ready (DFS over all its task orders); per-tile in-flight counters and enter/exit stamps; '
-              'one-stream DFS over all insert/execute interleavings for the ordering half',
+              'one-stream DFS over all insert/execute interleavings for the ordering half; instruction-level legs: preemption-bounded exhaustive schedule enumeration (cosched) of the real '
+              'parsec_dtd_insert_task against the real completion path (complete_hook_of_dtd / parsec_dtd_release_deps / parsec_dtd_ordering_correctly / data_lookup_of_dtd_task) on 2-3 controlled threads',
     level_text='For every DTD program with <= 2 tasks (and a stride of the 3-task programs; 1-2 parameters per task, modes INPUT/OUTPUT/INOUT, 2 tiles) and every task A of it, '
                'A is held inside its body on the second execution stream until the first stream, which inserts the rest of the program and executes every task the '
                'runtime hands to the scheduler (all orders enumerated, refused writers re-offered after every completion), has nothing left to select; if the runtime lets '
                'a conflicting task start while A is inside, atomic per-tile writers_in/readers_in counters in the bodies see it. For all conflicting pairs (same tile, one '
                'writes) exit(earlier) < enter(later) by global stamps - in particular a writer never starts before a reader inserted before it has left. Readers between the '
-               'same writers are observed inside together (reachability witness). A one-stream leg enumerates every insert/execute interleaving for the ordering half.',
-    level_note='Hold/order legs: task bodies and runtime actions (prepare_input, completion, insertion) are atomic with respect to each other except for the held body; mt legs: 3-4 free-running streams behind the real scheduler module with every insertion serialised against task prepare/execute/complete on the other streams: instruction-level races '
-               'between a completing predecessor and a concurrent insertion are NOT explored (NOTES.md finding F5). Legs run with task-object recycling suppressed and without '
+               'same writers are observed inside together (reachability witness). A one-stream leg enumerates every insert/execute interleaving for the ordering half. '
+               'Instruction-level legs (il-*): for the program (R a ; W a) every schedule with <= 2 preemptions (thorough: 3 attempted) of an inserting thread (real parsec_dtd_insert_task, flush_all, '
+               'parsec_taskpool_wait on stream 0) against 1-2 worker threads (real __parsec_task_progress on streams 1-2), scheduling points at every instrumented access to the tiles, '
+               'data_copy->readers and the DTD task descriptors; the same with <= 2 preemptions for writer->reader, writer->writer and reader->reader on one tile, and with <= 1 preemption '
+               '(thorough: 2 for all one-parameter programs) for a stride of all programs <= 2 tasks; same counters/stamps oracle plus the C03 value oracle.',
+    level_note='Hold/order legs: task bodies and runtime actions (prepare_input, completion, insertion) are atomic with respect to each other except for the held body; mt legs: 3-4 free-running streams behind the real scheduler module with every insertion serialised against task prepare/execute/complete on the other streams: instruction-level races between a completing predecessor and a concurrent insertion are explored only by the il legs, within their bounds: '
+               '2 (3) threads, preemption bound 2 (1) per the leg names, programs <= 2 (3) tasks, sequentially consistent interleavings at the watched objects; accesses to tile->last_user/last_writer made by the '
+               'holder of the tile lock and reads of a flow record\'s write-once fields are not scheduling points; the harness queue replaces the scheduler module; a refused writer is re-offered only when its copies have no reader. '
+               'The il legs reproduce finding F5 (reader chain end published before the reader is counted): attributed to known finding C04-reader-chain-end-published-before-retain only if that id is listed in known_findings.json, otherwise reported as a violation. Legs run with task-object recycling suppressed and without '
                'tasks naming a tile twice (known findings C03-stale-last-user-aba, C03-dup-tile-reader-count, exercised by the C03 check). runtime_keep_highest_priority_task=0 so '
                'that every ready task passes through the scheduler.',
 )
 RULE = ("states = canonical programs per leg; executions = complete taskpool cycles (one per explored choice list and held task); transitions = scheduling / gate decisions; "
         "non-trivial = choice list deviates from the default order; outcomes = distinct (program, configuration, held task, trace) signatures; "
-        "extra counters per leg: overlapped_with_held = tasks started on stream 0 while the held task was inside, runs_with_readers_together, again_resubmissions")
-ASSUME = ["task-level atomicity except for the held body (see level_note)",
+        "extra counters per leg: overlapped_with_held = tasks started on stream 0 while the held task was inside, runs_with_readers_together, again_resubmissions. "
+        "il legs (engine cosched): one leg entry per program; executions = complete schedules (each a full create/insert/flush/wait/free cycle of a real DTD taskpool under the controlled scheduler), "
+        "states = nodes of the schedule tree, transitions = scheduling points passed, non-trivial = schedules with >= 1 preemption, outcomes = distinct (task->stream order, enter/exit stamps, AGAIN count) strings; "
+        "points_per_region = scheduling points by watched object class summed over the executions, max_points_per_thread, bound_completed")
+ASSUME = ["hold/order/mt legs: task-level atomicity except for the held body (see level_note)",
           "mt legs: the main thread inserts only while no other stream holds a task (wrapped scheduler module); default window only; overlap of independent tasks is whatever the OS scheduler produces",
           "driver keeps completed task objects out of the class free lists while a taskpool lives (--norecycle); no task names a tile twice",
           "harness scheduler replaces the scheduler module (parsec_current_scheduler); runtime_keep_highest_priority_task=0",
-          "DTD hash tables reduced to 64 buckets"]
+          "DTD hash tables reduced to 64 buckets",
+          "il legs: sequential consistency at instrumented accesses; lock-based reduction (accesses to last_user/last_writer by the holder of the tile lock are not scheduling points); reads of write-once flow fields "
+          "(op_type, tile, arena_index) are not scheduling points; harness FIFO queue instead of a scheduler module, runtime_keep_highest_priority_task=0 (1 in one thorough leg); the two unhooked spin loops of "
+          "overlap_strategies.c and the nanosleep back-off of parsec_taskpool_wait are turned into waits by the harness; termination-detector counters are not watched (C10)"]
 CFLAGS = ['-I/repo/parsec', '-I/verif/engine/rt']
 
 def build(ctx):
     return ctx.compile('hk-shm', 'c04', ['c04_h.c'], instr=False, cflags=CFLAGS)
+
+# ---- instruction-level legs (E4 leg 4): c04_il.c = cosched over the real insert / complete paths on 2-3 borrowed streams
+ID_F5 = 'C04-reader-chain-end-published-before-retain'
+SAME_TILE = ['Ra', 'Wa', 'RWa', 'Ra_RWa', 'Ra_Ra', 'Wa_Ra', 'RWa_Ra', 'Wa_Wa', 'Wa_RWa', 'RWa_Wa', 'RWa_RWa']     # + Ra_Wa (leg il-f5) = every program <= 2 tasks with 1 parameter per task on ONE tile
+
+def build_il(ctx):
+    return ctx.compile('hk-shm', 'il', ['c04_il.c'], engine='cosched', cflags=CFLAGS, ldflags=['-ldl'])
+
+def il_known_ids():
+    p = os.environ.get('VERIF_KNOWN_FINDINGS') or os.path.join(os.environ.get('VERIF_ROOT', '/verif'), 'known_findings.json')
+    try:
+        fs = json.load(open(p)).get('findings', [])
+    except Exception:
+        return []
+    return [f['id'] for f in fs if isinstance(f, dict) and f.get('id', '').startswith(('C04-', 'C03-'))]
+
+def il_leg(ctx, exe, name, args, bound, deadline, jobs=8, only=None):
+    """one cosched invocation = one parsec_init'ed context configuration; every program is a scenario"""
+    if only and name not in only.split(','):
+        return
+    import vlib
+    os.environ['PARSEC_MCA_bind_threads'] = '0'
+    stats = os.path.join(vlib.OUT, 'res', '%s-%s-stats.json' % (ctx.pid, name))
+    if os.path.exists(stats):
+        os.unlink(stats)
+    n0 = len(ctx.legs)
+    ctx.run_engine(exe, list(args) + ['--bound', str(bound), '--scenario', 'all', '--jobs', str(jobs), '--outdir', vlib.OUT, '--deadline', str(int(deadline)),
+                                      '--known', ','.join(il_known_ids()), '--stats', stats], label=name, timeout=deadline + 400)
+    try:
+        st = json.load(open(stats))
+    except Exception:
+        st = {}
+    for l in ctx.legs[n0:]:
+        l.pop('region_hits', None)            # cosched's per-index table is meaningless with regions registered while the threads run
+        l.update(st.get(l.get('name'), {}))
+        if l.get('executions', 0) > 0 and st.get(l.get('name')) and not all(st[l['name']]['points_per_region'].get(k, 0) > 0 for k in ('tile', 'copy.readers', 'task.flow', 'task.data', 'task.refcount', 'queue-op', 'body')):
+            ctx.broken.append('%s/%s: a watched region class recorded no scheduling point (harness defect)' % (name, l.get('name')))
+
+def il_legs(ctx, only):
+    exe = build_il(ctx)
+    if os.environ.get('VERIF_KNOWN_FINDINGS'):
+        ctx.notes.append('il legs: known findings read from %s (VERIF_KNOWN_FINDINGS), ids used: %s' % (os.environ['VERIF_KNOWN_FINDINGS'], ','.join(il_known_ids())))
+    P = lambda names: sum((['--prog', n] for n in names), [])
+    if ctx.tier == 'quick':
+        il_leg(ctx, exe, 'il-f5', ['--prog', 'Ra_Wa'], 2, 75, only=only)                               # reader, then writer inserted while the reader's activation is in flight
+        il_leg(ctx, exe, 'il-same-b2', P(['Wa_Ra', 'Wa_Wa', 'Ra_Ra']), 2, 105, only=only)               # writer->reader, writer->writer, reader chain growing under the walk
+        il_leg(ctx, exe, 'il-le2-b1', P(SAME_TILE) + ['--nt', '1:2', '--maxp', '2', '--stride', '10'], 1, 120, only=only)
+        il_leg(ctx, exe, 'il-t3-b1', ['--threads', '3', '--prog', 'Ra_Wa'], 1, 45, only=only)
+    else:
+        # legs that cannot finish (bound 3, two-parameter / three-task programs at bound 2, 3 threads at bound 2) get short fixed deadlines and report the bound they completed
+        il_leg(ctx, exe, 'il-f5-b3', ['--prog', 'Ra_Wa'], 3, 120, jobs=12, only=only)
+        il_leg(ctx, exe, 'il-le2p1-b2', ['--nt', '1:2', '--maxp', '1'], 2, 240, jobs=12, only=only)
+        il_leg(ctx, exe, 'il-le2p2-b1', ['--nt', '1:2', '--maxp', '2', '--stride', '3'], 1, 180, jobs=12, only=only)
+        il_leg(ctx, exe, 'il-p2-b2', P(['Ra.Wb_Wa.Rb', 'Ra.Rb_Wa.Wb', 'RWa.Rb_Rb.Wa']), 2, 60, jobs=12, only=only)
+        il_leg(ctx, exe, 'il-3p1-b1', ['--nt', '3:3', '--maxp', '1', '--stride', '3'], 1, 120, jobs=12, only=only)
+        il_leg(ctx, exe, 'il-3p1-b2', P(['Ra_Ra_Wa', 'Ra_Wa_Ra', 'Wa_Ra_Ra']), 2, 60, jobs=12, only=only)
+        il_leg(ctx, exe, 'il-t3-b1', ['--threads', '3'] + P(['Ra_Wa', 'Ra_Ra', 'Wa_Ra', 'Ra_Ra_Wa']), 1, 180, jobs=12, only=only)
+        il_leg(ctx, exe, 'il-t3-b2', ['--threads', '3', '--prog', 'Ra_Wa'], 2, 40, jobs=12, only=only)
+        il_leg(ctx, exe, 'il-keep1-b2', ['--keep', '1'] + P(['Ra_Wa', 'Wa_Ra']), 2, 60, jobs=12, only=only)
+        il_leg(ctx, exe, 'il-lifo-b2', ['--lifo', '1'] + P(['Ra_Wa', 'Wa_Ra']), 2, 60, jobs=12, only=only)
 
 def check(ctx):
     exe = build(ctx)
@@ -49,8 +122,41 @@ def check(ctx):
         leg('order-3', ['--leg', 'gate', '--nt', '3:3', '--maxp', '2', '--win', '0,0', '--stride', '5', '--jobs', '12'], 250)
         leg('mt-3t', ['--leg', 'mt', '--threads', '3', '--oracle', '3', '--nt', '1:3', '--maxp', '2', '--win', '0,0', '--api', '3', '--spin', '1000', '--stride', '2', '--jobs', '8'], 200)
         leg('mt-4t-scheds', ['--leg', 'mt', '--threads', '4', '--oracle', '3', '--nt', '1:3', '--maxp', '2', '--win', '0,0', '--api', '1', '--spin', '1000', '--stride', '24', '--allscheds', '1', '--exclude', 'll,llp,ip'], 300)
+    il_legs(ctx, only)
     return ctx.finish(RULE, ASSUME)
 
 def replay(ctx, path, obj):
+    if obj.get('engine') == 'cosched':
+        return replay_il(ctx, build_il(ctx), path)
     exe = build(ctx)
     return subprocess.call([exe, '--replay', path, '--outdir', '/verif/out'])
+
+def replay_il(ctx, exe, path):
+    """re-execute the recorded schedule; the harness prints one line per scheduling point (thread, access, object, code address):
+    resolve the code addresses to function / file:line"""
+    import re
+    os.environ['PARSEC_MCA_bind_threads'] = '0'
+    r = subprocess.run([exe, '--replay', path], capture_output=True, text=True)
+    lines = r.stdout.splitlines()
+    want = {}
+    for ln in lines:
+        m = re.search(r' @(\S+)\+0x([0-9a-f]+)$', ln)
+        if m:
+            want.setdefault(m.group(1), set()).add(m.group(2))
+    sym = {}
+    for f, offs in want.items():
+        offs = sorted(offs)
+        try:
+            out = subprocess.run(['addr2line', '-f', '-s', '-e', f] + ['0x' + o for o in offs], capture_output=True, text=True).stdout.splitlines()
+            for i, o in enumerate(offs):
+                sym[(f, o)] = '%s %s' % (out[2 * i], out[2 * i + 1])
+        except Exception:
+            pass
+    for ln in lines:
+        m = re.search(r' @(\S+)\+0x([0-9a-f]+)$', ln)
+        if m and (m.group(1), m.group(2)) in sym:
+            ln = ln[:m.start()] + '  <- ' + sym[(m.group(1), m.group(2))]
+        print(ln)
+    import sys
+    sys.stderr.write(r.stderr)
+    return r.returncode
